@@ -1629,7 +1629,7 @@ func (c *aatApplyContext) applyTrak(trak tables.Trak) {
 	buffer := c.buffer
 	if buffer.Props.Direction.isHorizontal() {
 		trackData := trak.Horiz
-		tracking := int(getTracking(trackData, ptem, 0))
+		tracking := int(roundf(getTracking(trackData, ptem, 0))) // rounded, as HarfBuzz does
 		advanceToAdd := c.font.emScalefX(float32(tracking))
 		offsetToAdd := c.font.emScalefX(float32(tracking / 2))
 
@@ -1644,7 +1644,7 @@ func (c *aatApplyContext) applyTrak(trak tables.Trak) {
 
 	} else {
 		trackData := trak.Vert
-		tracking := int(getTracking(trackData, ptem, 0))
+		tracking := int(roundf(getTracking(trackData, ptem, 0))) // rounded, as HarfBuzz does
 		advanceToAdd := c.font.emScalefY(float32(tracking))
 		offsetToAdd := c.font.emScalefY(float32(tracking / 2))
 		iter, count := buffer.graphemesIterator()
